@@ -170,7 +170,10 @@ class DewPoint:
         Psats = np.array([i(T) for i in self.Psats])
         Psats[Psats < 1e-16] = 1e-16 # Prevent floating point error
         x[:] = zP / Psats
-        return 1 - x.sum()
+        # The logarithm of the dew equation is nearly linear in 1/T; 1 - sum(x) spans
+        # eight decades over [Tmin, Tmax] at high pressure and the bracketing
+        # solver cannot converge on it within maxiter
+        return -np.log(x.sum())
     
     def _P_error(self, P, T, z_norm, z_over_Psats, Psats, x):
         if P <= 0: raise InfeasibleRegion('negative pressure')
